@@ -143,6 +143,14 @@ pub fn check(c: &Case) -> Outcome {
     if !agree(model, &got) {
         return fail(format!("`{src}` xs={:?} table={:?}: defining fold gives {:?}, interpreter gives {}", c.range, c.table, model, got.show()));
     }
+    // bodies that call no function at all: the same compiled program gives the same fold in a context that has the
+    // variables but no function registry entries (Context::empty())
+    if !is_map && !e.any(&|x| matches!(x, E::Call(..))) {
+        match sut::run_then_on_empty(&src, &vars) {
+            Ran::Done(g2) if agree(model, &g2) => {}
+            o => return fail(format!("`{src}` xs={:?}: in a context built from Context::empty() (same variables, no functions) the defining fold still gives {:?}, interpreter gives {}", c.range, model, o.show())),
+        }
+    }
     let len = match &c.range {
         V::List(xs) => xs.len(),
         V::Map(es) => es.len(),
@@ -167,6 +175,61 @@ pub fn check(c: &Case) -> Outcome {
     }
     let nt = (len >= 2 && (early || model.is_err())) || is_map || c.inner.is_some() || (len >= 2 && c.body % N_PRED >= 5);
     pass_n(nt, cl)
+}
+
+/// one macro applied to the result of another (`xs.filter(x, p).map(x, f)` ...): the first fold runs to completion - all
+/// its body evaluations, in order, and its error if any - before the second one starts
+#[derive(Clone, Debug, Serialize, Deserialize)]
+pub struct Pipe {
+    pub range: V,
+    /// first stage: filter (pred k) or map (xform k) or three-argument map (pred, xform)
+    pub first: (Mac, u8, u8),
+    pub second: (Mac, u8, u8),
+    /// the second stage reuses the iteration variable name of the first
+    pub same_var: bool,
+    pub table: Table,
+}
+
+fn stage(m: Mac, range: E, var: &str, p: u8, f: u8, three: bool) -> E {
+    let rename = |e: E| -> E {
+        if var == "x" {
+            e
+        } else {
+            e.map_vars(&|n| if n == "x" { var.to_string() } else { n.to_string() })
+        }
+    };
+    let body = match (m, three) {
+        (Mac::Map, true) => vec![rename(pred(p)), rename(xform(f))],
+        (Mac::Map, false) => vec![rename(xform(f))],
+        _ => vec![rename(pred(p))],
+    };
+    E::Macro(m, b(range), var.to_string(), body)
+}
+
+pub fn check_pipe(c: &Pipe) -> Outcome {
+    let s1 = stage(c.first.0, E::var("xs"), "x", c.first.1, c.first.2, c.first.0 == Mac::Map && c.first.1 != 255);
+    let var2 = if c.same_var { "x" } else { "y" };
+    let e = stage(c.second.0, s1, var2, c.second.1, c.second.2, c.second.0 == Mac::Map && c.second.1 != 255);
+    let src = e.render();
+    let vars = vec![("xs".to_string(), c.range.clone())];
+    let (ran, log) = sut::run_logged(&src, &vars, &c.table);
+    let got = match ran {
+        Ran::Done(r) => r,
+        o => return fail(format!("`{src}`: {}", o.show())),
+    };
+    let variants = crate::props::c03::model_variants(&e, &vars, &c.table, true);
+    if let Err(Stop::Unsupported(w)) = &variants[0].0 {
+        return Outcome::Skip(w);
+    }
+    let k = variants.iter().position(|(m, st)| st.log == log && agree(m, &got)).unwrap_or(0);
+    let (model, st) = (&variants[k].0, &variants[k].1);
+    if log != st.log {
+        return fail(format!("`{src}` xs={:?} table={:?}: stage by stage the bodies run as {:?}, observed {:?}; model {:?}, interpreter {}", c.range, c.table, st.log, log, model, got.show()));
+    }
+    if !agree(model, &got) {
+        return fail(format!("`{src}` xs={:?} table={:?}: stage by stage the folds give {:?}, interpreter gives {}", c.range, c.table, model, got.show()));
+    }
+    pass_n(true, vec!["two-stage-pipeline", if c.same_var { "stages-share-the-variable-name" } else { "stages-use-different-names" }, if model.is_err() { "pipeline-error" } else { "pipeline-value" }])
 }
 
 /// ranges over maps with bodies that do not log: the visit order is unknown, so only order-insensitive
@@ -437,6 +500,31 @@ pub fn run(r: &mut Runner) {
             }
         }
         r.sweep("map-literals-as-direct-receivers", cases, check_literal_receiver);
+    }
+    {
+        // every pair of stages over short lists with logging / raising bodies
+        let lists = [V::List(vec![]), V::List(vec![V::Int(0)]), V::List(vec![V::Int(2), V::Int(1)]), V::List(vec![V::Int(1), V::Int(0), V::Int(3)]), V::List(vec![V::Int(3), V::Int(3), V::Int(2), V::Int(0)])];
+        // (macro, pred, xform); pred 255 = no predicate (two-argument map)
+        let firsts: [(Mac, u8, u8); 6] = [(Mac::Filter, 8, 0), (Mac::Filter, 5, 0), (Mac::Filter, 0, 0), (Mac::Map, 255, 3), (Mac::Map, 8, 3), (Mac::Map, 255, 2)];
+        let seconds: [(Mac, u8, u8); 8] = [(Mac::Map, 255, 3), (Mac::Map, 255, 2), (Mac::Map, 8, 3), (Mac::Filter, 8, 0), (Mac::All, 8, 0), (Mac::Exists, 8, 0), (Mac::ExistsOne, 8, 0), (Mac::Map, 5, 3)];
+        let tables: Vec<Table> = vec![
+            vec![],
+            vec![(V::Int(0), Some(V::Bool(true))), (V::Int(1), Some(V::Bool(false))), (V::Int(2), Some(V::Bool(true))), (V::Int(3), Some(V::Bool(true)))],
+            vec![(V::Int(0), Some(V::Bool(true))), (V::Int(1), None), (V::Int(2), Some(V::Bool(true))), (V::Int(3), Some(V::Bool(false)))],
+        ];
+        let mut cases = vec![];
+        for l in &lists {
+            for f in firsts {
+                for s2 in seconds {
+                    for same_var in [true, false] {
+                        for t in &tables {
+                            cases.push(Pipe { range: l.clone(), first: f, second: s2, same_var, table: t.clone() });
+                        }
+                    }
+                }
+            }
+        }
+        r.sweep("two-stage-pipelines", cases, check_pipe);
     }
     r.random(
         "random-maps",
